@@ -284,9 +284,9 @@ Definition discard_m (w : mworld) (_ : unit) (n : Z) : outcome (Z * option gerr 
 Definition as_seeker_m (k : rkind) : option unit := match k with Seekable => Some tt | _ => None end.
 Definition as_bufio_m (k : rkind) : option unit := match k with Bufio => Some tt | _ => None end.
 
-(* io.Seeker.Seek(0, 0) of the model's seekable reader *)
+(* io.Seeker.Seek(0, io.SeekStart) of the model's seekable reader; the model knows no other seek *)
 Definition seek_m (w : mworld) (_ : unit) (off whence : Z) : outcome (Z * option gerr * mworld) :=
-  Done (0, None, mw_set_reader w (r_seek0 (mw_reader w))).
+  if (off =? 0) && (whence =? 0) then Done (0, None, mw_set_reader w (r_seek0 (mw_reader w))) else Panicked.
 
 (* parsePacket: the packet handed to the skipper is logged (ghost) *)
 Definition parse_packet_m (err_of : Z -> gerr) (w : mworld) (i : iter) (sk : option go_skipper)
@@ -314,6 +314,12 @@ Proof.
   intros H. inversion H; subst. unfold r_advance. cbn [r_rest r_total r_pos r_kind].
   rewrite firstn_length, skipn_length. repeat split; lia.
 Qed.
+
+Lemma rest_len_new data f k : rest_len (new_reader data f k).
+Proof. unfold rest_len, new_reader. cbn [r_rest r_total r_pos]. lia. Qed.
+
+Lemma rest_len_seek0 r : r_total r = Z.of_nat (List.length (r_all r)) -> rest_len (r_seek0 r).
+Proof. intros H. unfold rest_len, r_seek0. cbn [r_rest r_total r_pos]. lia. Qed.
 
 Lemma read_full_len r n bs e r' : 0 <= n -> read_full r n = ((bs, e), r') -> Z.of_nat (List.length bs) <= n.
 Proof.
